@@ -3,6 +3,7 @@ package bush
 import (
 	"errors"
 	"sync"
+	"sync/atomic"
 	"time"
 
 	"github.com/ovrclk/akash/pubsub"
@@ -21,13 +22,16 @@ type session struct {
 	nextH   int
 	nextEv  int
 	blocked bool
+
+	accepted int64 // publishes the bus accepted
+	fanouts0 int64 // value of rootFanouts when the session started
 	hung    bool // a Close() did not return (its caller is stuck; publishers and other subscribers are probed by the rest of the run)
 	closers sync.WaitGroup
 }
 
 func newSession(timeout time.Duration) *session {
 	b := pubsub.NewBus()
-	return &session{bus: b, rootID: ptr(b), timeout: timeout, subs: map[int]pubsub.Subscriber{},
+	return &session{fanouts0: atomic.LoadInt64(&rootFanouts), bus: b, rootID: ptr(b), timeout: timeout, subs: map[int]pubsub.Subscriber{},
 		parent: map[int]int{}, closed: map[int]bool{}, nextH: 1, nextEv: 1}
 }
 
@@ -98,8 +102,24 @@ func (s *session) publish(ev int) string {
 		drv("pubret", s.rootID, "ev", ev, "flag", "blocked")
 		return "blocked"
 	}
+	if err == nil {
+		atomic.AddInt64(&s.accepted, 1)
+	}
 	drv("pubret", s.rootID, "ev", ev, "flag", flagOf(err))
 	return flagOf(err)
+}
+
+// fanoutsSettled waits until the bus's loop has finished the fan-out of every event it accepted so far, so that
+// the next arrival at the "bus.fanout" gate belongs to the next publish.
+func (s *session) fanoutsSettled() bool {
+	deadline := time.Now().Add(s.timeout)
+	for atomic.LoadInt64(&rootFanouts)-s.fanouts0 < atomic.LoadInt64(&s.accepted) {
+		if time.Now().After(deadline) {
+			return false
+		}
+		time.Sleep(50 * time.Microsecond)
+	}
+	return true
 }
 
 // subscribe creates a subscriber on the bus (ph = 0) or a clone of handle ph; returns the new handle.
